@@ -218,6 +218,13 @@ def oracle_C03(inp):
             out.append("%r.get_as(%r) fields %r" % (x.uri, k, y.fields))
         if str(y) != "/".join(segs[:i + 1]):
             out.append("%r.get_as(%r) string %r" % (x.uri, k, str(y)))
+        # ... and it is THE Sid of those fields (C02: type and fields decide identity): typed as its string
+        # is typed, and for the last key of a naturally typed Sid it is the Sid itself
+        tf = dict(templates()).get(y.type)
+        if tf is None or [kk for kk, _ in tf] != keys[:i + 1] or not accepts(tf, segs[:i + 1]):
+            out.append("%r.get_as(%r) has type %r, whose template does not accept the fields up to %r" % (x.uri, k, y.type, k))
+        elif ":" not in s and natural(x) and i == len(keys) - 1 and not same(y, x):
+            out.append("%r.get_as(its last key %r) = %r is not the Sid itself" % (x.uri, k, y.uri))
     if len(x) >= 2:
         p = x.parent
         g = x.get_as(keys[-2])
